@@ -337,6 +337,43 @@ pub fn run_check(ctx: &Ctx) -> i32 {
     if !ctx.capped.load(std::sync::atomic::Ordering::Relaxed) {
         ctx.level_done(&format!("every Sigma-string of length<={max} x {} sinks x {} encodings", SINKS.len(), encs.len()));
     }
+    // long strings: an escapable / non-ASCII / unmappable character placed around the encoder's
+    // buffer sizes (63-byte stack buffer, 1 KiB, 4 KiB)
+    {
+        let sizes: &[usize] = if quick { &[61, 62, 63, 64, 1023, 1024, 4096] } else { &[30, 31, 32, 60, 61, 62, 63, 64, 65, 126, 127, 128, 1022, 1023, 1024, 1025, 4094, 4095, 4096, 4097, 8192] };
+        let specials = ["<", ">", "&", "\"", "'", "\u{e9}", "\u{416}", "\u{1f600}", "</script>", "-->", "<&>\u{e9}"];
+        let mut strings: Vec<String> = vec![];
+        for &n in sizes {
+            for sp in specials {
+                strings.push(format!("{}{sp}y", "x".repeat(n)));
+                strings.push(format!("{sp}{}", "x".repeat(n)));
+            }
+            strings.push("\u{e9}<".repeat(n / 3 + 1));
+            strings.push("&".repeat(n));
+        }
+        par_for(strings.len(), 1, |i| {
+            if ctx.over_time() {
+                return;
+            }
+            let s = &strings[i];
+            for enc in encs.iter() {
+                for (si, sink) in SINKS.iter().enumerate() {
+                    ctx.exec(2);
+                    ctx.validated(1);
+                    ctx.states.insert(digest(&(si, s, enc.name())));
+                    ctx.nontrivial.insert(digest(&(si, s)));
+                    if let Some(msg) = check(*sink, s, enc) {
+                        let case = json!({"sink": si, "sink_name": format!("{sink:?}"), "string": s, "encoding": enc.name()});
+                        let c2 = case.clone();
+                        ctx.violation(msg, case, &|| replay(&c2));
+                    }
+                }
+            }
+        });
+        if !ctx.capped.load(std::sync::atomic::Ordering::Relaxed) {
+            ctx.level_done(&format!("{} long strings (an escapable / non-ASCII / unmappable character at offsets {:?}, runs of escapables) x {} sinks x {} encodings", strings.len(), sizes, SINKS.len(), encs.len()));
+        }
+    }
     let max2 = if quick { 3 } else { 4 };
     let n2 = crate::alpha::count_upto(k, max2);
     let kinds = 1 + 3 * RAW_CTX.len();
